@@ -1182,6 +1182,8 @@ class Key(object):
                 else:
                     self.compressed = False
                 key_byte = key[1:]
+                if len(key_byte) != 32:
+                    raise BKeyError("Invalid WIF key, private key is %d bytes instead of 32" % len(key_byte))
                 key_hex = key_byte.hex()
             else:
                 raise BKeyError("Unknown key format %s" % self.key_format)
